@@ -229,6 +229,9 @@ def run(ctx):
              "index list, single index; parameters as literals and constant expressions (-pi/3, 2*pi); 1..3 qubit and 0..3 bit "
              "variables of sizes 1..5 in shuffled, also mid-program, declaration order, scalars and arrays, comments and blank "
              "lines; fixed corpus of malformed programs; non-trivial = program with at least one instruction")
+    from opensquirrel.parser.libqasm.parser import Parser
+
+    reused = Parser()
     n = ctx.pick(400, 6000)
     progs = [make_program(rng) for _ in range(n)]
     asts, reqs, idx = [], [], []
@@ -249,6 +252,16 @@ def run(ctx):
             err = None
         except Exception as e:  # noqa: BLE001
             c, err = None, implrun.errkind(e)
+        # the same program through ONE Parser object reused for the whole run must give the same circuit
+        try:
+            c_re = reused.circuit_from_string(text)
+            same = err is None and (c_re.qubit_register_size, c_re.bit_register_size) == (c.qubit_register_size, c.bit_register_size) \
+                and not ser.struct_diff(implrun.canon_post(c_re.ir.statements), implrun.canon_post(c.ir.statements), 0)
+        except Exception as e:  # noqa: BLE001
+            same = err is not None
+        if not same:
+            ctx.oracle_fail("programs", case, "a Parser object that already parsed other programs gives a different circuit", None)
+            continue
         eq = None
         if asts[i] is None:
             ctx.oracle_fail("programs", case, f"generator bug or parser defect: libqasm rejected a supported program ({err})", None)
